@@ -139,6 +139,14 @@ Proof.
 Qed.
 End Proofs.
 
+(** with the reset in front of the loop, every template — reading the instance's state or not —
+    resolves the same from every prior state, hence after every history of earlier resolutions,
+    succeeded, failed or interrupted *)
+Theorem history_independent_after_reset a b m S build fresh max_rounds (s1 s2 : S) :
+  resolve a b m S build fresh max_rounds s1 = resolve a b m S build fresh max_rounds s2.
+Proof. reflexivity. Qed.
+
+
 (** * C05, full statement refuted for an arbitrary size function: a pass function whose payload
     length oscillates with the fee makes the loop stop on the round cap and return a
     transaction whose body fee differs from the reported fee *)
@@ -147,13 +155,13 @@ Definition osc_build (st : unit) (fee : N) : outcome (N * N * unit) :=
   let len := if N.even fee then 11 else 10 in Ok (len, len * 1000 + fee, tt).
 
 Lemma resolve_fixed_point_refuted :
-  exists r st e, resolve 1 0 0 unit osc_build 3 tt = Ok (Some r, st, e) /\ e = false /\ c_body_fee r <> c_fee r.
+  exists r st e, resolve 1 0 0 unit osc_build tt 3 tt = Ok (Some r, st, e) /\ e = false /\ c_body_fee r <> c_fee r.
 Proof.
   eexists _, _, _. split; [vm_compute; reflexivity|]. split; [reflexivity|]. vm_compute. discriminate.
 Qed.
 
 (** non-vacuity of the convergence theorem: a constant-size pass converges on the second pass *)
 Example converges_somewhere :
-  exists r st, resolve 44 155381 200000 unit (fun _ fee => Ok (300, fee, tt)) 3 tt = Ok (Some r, st, true)
+  exists r st, resolve 44 155381 200000 unit (fun _ fee => Ok (300, fee, tt)) tt 3 tt = Ok (Some r, st, true)
                /\ c_body_fee r = c_fee r /\ c_fee r = 44 * 300 + 155381 + 200000.
 Proof. eexists _, _. vm_compute. repeat split. Qed.
